@@ -5,6 +5,7 @@ import ProfiVerif.Model.Station
 import ProfiVerif.Lemmas.StationWho
 import ProfiVerif.Lemmas.StationMark
 import ProfiVerif.Lemmas.StationHandshake
+import ProfiVerif.Lemmas.TimedRing2Step
 
 namespace PV.C01
 open PV
@@ -714,5 +715,52 @@ example : AwaitsQuietly sQ [] [(100, []), (300, [0x10]), (650, [0x10, 5]), (900,
   requester_never_gives_up sQ [] 0 sQ_inv rfl (.inl ⟨3, rfl⟩) rfl _ (by
     show Dense 400 0 0 _
     simp [Dense])
+
+/-! ## Whole runs of a stable two-station ring on the byte-accurate bus of `Model/Net.lean`
+
+Two station models (indices 0 and 1) on the bus that the `net` correspondence ties to the real code: a
+transmission of `n` characters started at `t` makes character `k` visible to the other station at
+`t + ⌈11·(k+1)·10⁶/rate⌉`; overlapping transmissions would be delivered as zero bytes.  Stable ring: both
+stations are members with agreeing, valid LAS (`RingView` over the same member list), nobody joins or
+leaves, fault-free bus, no application traffic (`apps = []`); every token hold ends with a GAP request to
+an unoccupied address (which times out) or with the token pass, as `gapAdvance` decides.
+The invariant `RInv cfg n v` (`Lemmas/TimedRing2.lean`) describes the three phases `hold` / `gap` / `pass`
+of the station whose turn it is, what the other station has received so far, the time stamps and the
+shape of the transmission log; `cfg.Ok` is the handshake margin `2 + 2·P + bits 33 + ⌈11 bit⌉ ≤ Tslot`;
+the schedule `Sched` says: events in time order, each station's own poll times strictly increasing, no
+station unpolled for more than `P` at any event. -/
+
+/-- **`two_station_ring_run`** — for EVERY schedule and EVERY length of run from a state satisfying the
+invariant: every poll returns regularly (no panic); ONLY the station whose turn it is ever transmits — no
+claim, no retry, no reply occurs, so nobody's token-lost or slot time-out ever fires spuriously; every
+transmission starts LATER than 33 bit times after the END of the previous transmission on the bus (hence no
+two transmissions overlap, and the synchronisation pause is respected); each transmission is a GAP
+request to an address other than the other station's (the turn stays) or the token to the other station
+(the turn passes on: the token alternates between the two stations).  (`GoodRun`.) -/
+theorem two_station_ring_run (cfg : Cfg) (hok : cfg.Ok) (adr : Nat → Nat) (n : Net) (v : View) (h : RInv cfg n v)
+    (hadr : ∀ j, j < 2 → v.adr j = adr j) (evs : List (Nat × Int)) (hs : Sched cfg.P n v.tl evs) :
+    GoodRun cfg adr n v.nextTx (n.bus.txEnd v.tr) evs :=
+  ring2_run hok adr evs n v h hadr hs
+
+/-- The invariant is re-established after every scheduled run (so the statement above applies again). -/
+theorem two_station_ring_inv (cfg : Cfg) (hok : cfg.Ok) (n : Net) (v : View) (h : RInv cfg n v)
+    (evs : List (Nat × Int)) (hs : Sched cfg.P n v.tl evs) :
+    ∃ v', RInv cfg (n.after evs) v' ∧ ∀ j, j < 2 → v'.adr j = v.adr j :=
+  ring2_inv_run hok evs n v h hs
+
+/-- One event preserves the invariant (the case analysis behind the two theorems above). -/
+theorem two_station_ring_step (cfg : Cfg) (hok : cfg.Ok) (n : Net) (v : View) (h : RInv cfg n v) (i : Nat) (now : Int)
+    (e : EvOk cfg n v i now) : StepOut cfg n v i now :=
+  ring2_step h hok i now e
+
+/-- The schedule condition is a condition on the poll times alone. -/
+theorem schedule_of_times (P : Nat) (evs : List (Nat × Int)) (n : Net) (tl : Int)
+    (h : SchedT P n.bus.seen tl evs) : Sched P n tl evs :=
+  sched_of_times P evs n tl h
+
+/-- For poll gaps `P ≤ Tslot/4` the margin `cfg.Ok` holds whenever `88·10⁶ + 6·rate ≤ slotBits·10⁶`. -/
+theorem ring_margin_of_quarter_slot (cfg : Cfg) (hr : 0 < cfg.rate) (hP : cfg.P ≤ cfg.slot / 4)
+    (hs : 88 * 1000000 + 6 * cfg.rate ≤ cfg.slotBits * 1000000) : cfg.Ok :=
+  cfg.ok_of_quarter_slot hr hP hs
 
 end PV.C01
